@@ -49,16 +49,15 @@ def rat_groups(tier, seed):
         g("rat/b33", solve_calls(33, rng, seeds[:1], [0, 3], strats=(3,)) + solve_calls(33, rng, seeds[:1], [2], strats=(0,))
           + ["run_subs<33,0>(%du);" % seeds[0], "run_subs<33,2>(%du);" % seeds[0]])
     else:
-        for a in range(1, 21, 2):
-            calls = []
-            for n in (a, a + 1):
-                calls += solve_calls(n, rng, seeds, cols_for(n, 3))
-                calls += solve_calls(n, rng, seeds[:1], [0, 3], forms=(1, 2, 3))
-                calls += ["run_subs<%d,%d>(%du);" % (n, c, sd) for c in range(0, 9) for sd in seeds[:2]]
-            g("rat/n%d-%d" % (a, a + 1), calls)
-        g("rat/b32-33", solve_calls(32, rng, seeds[:2], [0, 1, 5]) + solve_calls(33, rng, seeds[:2], [0, 1, 5])
-          + ["run_subs<33,%d>(%du);" % (c, seeds[0]) for c in (0, 1, 4)])
-        g("rat/b64-65", solve_calls(64, rng, seeds[:1], [0, 2], strats=(0, 1, 2, 3)) + solve_calls(65, rng, seeds[:1], [0, 2], strats=(0, 1, 2, 3)))
+        # one size per translation unit (a unit with two sizes x all widths x all forms exceeded the compile timeout on a loaded machine)
+        for n in range(1, 21):
+            calls = solve_calls(n, rng, seeds[:2], [0, 1, rng.randrange(2, 9)])
+            calls += solve_calls(n, rng, seeds[:1], [rng.choice([0, 3])], forms=(1, 2, 3), strats=(rng.randrange(6), rng.randrange(6)))
+            calls += ["run_subs<%d,%d>(%du);" % (n, c, sd) for c in range(0, 9) for sd in seeds[:2]]
+            g("rat/n%d" % n, calls)
+        g("rat/b32", solve_calls(32, rng, seeds[:1], [0, 5], strats=(0, 1, 2, 3)))
+        g("rat/b33", solve_calls(33, rng, seeds[:2], [0, 1, 5]) + ["run_subs<33,%d>(%du);" % (c, seeds[0]) for c in (0, 1, 4)])
+        g("rat/b65", solve_calls(65, rng, seeds[:1], [0, 2], strats=(1, 3)))
     return groups
 
 def real_groups(tier, seed):
